@@ -618,6 +618,17 @@ def rand_case(arg):
 
 
 
+def sim_states(path):
+    """states of a `tlc -simulate` trace file (TLC interleaves `\\* <Action ...>` comment lines, which the shared
+    value parser does not skip: they are removed here before parsing)"""
+    with open(path) as f:
+        text = "".join(l for l in f if not l.lstrip().startswith(("\\*", "====", "----")))
+    clean = path + ".clean"
+    with open(clean, "w") as f:
+        f.write(text)
+    return list(tlaval.iter_dump(clean))
+
+
 class _CachedRes(object):
     """stand-in for a TLCResult restored from VERIF_CASE_CACHE (mutation runs re-use the repo-independent TLC output)"""
 
@@ -739,6 +750,8 @@ def selftest(ctx, sample_events):
     bad, _ = trace.validate("AutofillTrace", recs)
     by = {b["tid"]: b for b in bad}
     if 1 in by and by[1]["alarm"]:
+        if ctx.violations:  # the code under test is already convicted; the demonstration needs a working reference
+            return {"skipped": "reference run of the self-test is itself flagged (%s); violations were already recorded" % by[1]["clause"]}
         raise RuntimeError("binding self-test: reference run flagged: %r" % (by[1],))
     if not (2 in by and by[2]["alarm"] and by[2]["clause"] == "PictureNumber"):
         raise RuntimeError("binding self-test failed: broken picture numbering not flagged: %r" % (bad,))
@@ -783,7 +796,7 @@ def run(ctx):
             sim = tlc.run("Autofill", simcfg, simulate=1500, depth=30, seed=ctx.seed, workers=1, timeout=1800)
             out = []
             for p in sorted(glob.glob(os.path.join(sim.sim_dir, "tr*"))):
-                sts = list(tlaval.iter_dump(p))
+                sts = sim_states(p)
                 if sts:
                     st = tlaval.to_jsonable(sts[-1])
                     seqs = [[_norm_unit(u) for u in s] for s in closed_description(st)]
@@ -792,7 +805,10 @@ def run(ctx):
             return sim, out
 
         cases = cases + cached_tlc(ctx, "c07_simulate", "random walks (full cross alphabet)", simconsts, produce_sim)
-    if len(cases) < 500:
+    sub = int(os.environ.get("VERIF_SUBSAMPLE") or 1)  # mutation-sanity runs only: every k-th case (a subset of the full run)
+    if sub > 1:
+        cases = cases[::sub]
+    if len(cases) < 500 // sub:
         raise RuntimeError("vacuous: only %d descriptions from TLC" % len(cases))
     jobs = [(i + 1, c["seqs"]) for i, c in enumerate(cases)]
     t0 = time.time()
@@ -810,7 +826,7 @@ def run(ctx):
     if unser > len(cases) // 20:
         raise RuntimeError("vacuous: %d of %d spec-serialisable descriptions were not serialised by the code (e.g. %s)" % (unser, len(cases), [e["exc"] for e in events if not e["ser"]][:3]))
     # ... and T: TLC judges the same runs plus random descriptions
-    nrand = ctx.pick(4000, 120000)
+    nrand = ctx.pick(4000, 120000) // sub
     rjobs = [(len(events) + 1 + j, ctx.seed * 7919 + j) for j in range(nrand)]
     t0 = time.time()
     revents = common.pmap(rand_case, rjobs)
@@ -836,7 +852,12 @@ def run(ctx):
     ser_rand = sum(1 for e in revents if e["ser"])
     if ser_rand < nrand // 2:
         raise RuntimeError("vacuous: only %d of %d random descriptions were serialised" % (ser_rand, nrand))
-    st = selftest(ctx, events)
+    try:
+        st = selftest(ctx, events)
+    except RuntimeError as e:
+        if not ctx.violations:
+            raise
+        st = {"skipped": "self-test not conclusive on code that is already convicted by this run: %s" % e}
     nontrivial = set()
     fields_judged = 0
     for e in all_events:
@@ -861,6 +882,7 @@ def run(ctx):
             "spec_disagreements": {"expectation_mismatch_without_alarm": g_only, "expectation_mismatch_total": g_diff, "logged_clauses": logged},
             "binding_selftest": st,
             "phase_wall_s": phases,
+            "subsample": sub,
             "samples": samples,
         }
     )
